@@ -31,7 +31,7 @@ impl Keyspaces {
 //@extract-type src/journal/manager.rs :: JournalManager
 //@include spec/jmgr_spec.rs
 
-//@extract src/journal/manager.rs :: JournalManager :: enqueue world props=C10
+//@extract src/journal/manager.rs :: JournalManager :: enqueue world props=C10+C04+C02
 //@contract-file fn/jmgr_enqueue.c
 //@proof before self.items.push
         proof { ghost_push_sealed(w, item_view(item)); }
@@ -89,7 +89,7 @@ impl Keyspaces {
             }
 //@end
 
-//@extract src/journal/manager.rs :: JournalManager :: rotate_journal world props=C10+C09
+//@extract src/journal/manager.rs :: JournalManager :: rotate_journal world props=C10+C09+C02+C04
 //@contract-file fn/jmgr_rotate_journal.c
 //@end
 
